@@ -29,6 +29,10 @@ fixed(['C07'], '84b6c95', 'syncLPRational() / real-only exact solves copied the 
 fixed(['C14'], 'bd14627', 'readBasis() built default names x0, x0x1, x0x1x2, ... so basis files written with default names were rejected')
 fixed(['C07', 'C20'], '6ed0c9c', 'mpq_t array overloads of LPRowSetBase/LPColSetBase::add() did not grow scaleExp: heap-buffer-overflow in a later remove()')
 
+fixed(['C17'], '4c1443a', 'copying an SPxSolverBase lost the random number generator state and the store-basis frequency settings: copy and source diverge on the next solve')
+fixed(['C17'], '681afb0', 'SoPlexBase::operator= shared the Tolerances object between source and copy: changing a tolerance of one changed the other')
+fixed(['C17'], '76e1f1f', 'a copied SoPlex object with a persistently scaled LP kept lp_scaler / scale exponent pointers into the source object: use-after-free when the source is destroyed')
+fixed(['C17'], 'a5f85ce', 'a copied SPxSolverBase kept basis-matrix vector pointers into the LP of its source: the next solve of the copy depended on modifications of the source')
 fixed(['C13', 'C01'], '289d1ce', 'readLPF() (real and rational) leaked the internally created NameSet objects (placement new without destructor call)')
 fixed(['C15'], '8545d4c', 'setRealParam() accepted NaN for every real parameter (stored, or SIGFPE in GMP for feastol/opttol/infty/maxscaleincr)')
 fixed(['C15'], '58e96b2', 'rejected setIntParam(SIMPLIFIER, PAPILO) in a non-PaPILO build still re-pointed the active simplifier')
